@@ -85,7 +85,7 @@ def _run(seed, order, corpus_path, runner_path, root, shared=False, mode=None):
     return json.loads(p.stdout.strip().splitlines()[-1])
 
 
-def search():
+def search(thorough=False):
     root = os.path.dirname(os.path.dirname(os.path.abspath(__file__)))
     d = tempfile.mkdtemp()
     cpath, rpath = os.path.join(d, "corpus.json"), os.path.join(d, "runner.py")
@@ -96,7 +96,7 @@ def search():
     try:
         names = sorted(CORPUS)
         base = _run(0, names, cpath, rpath, root)
-        for seed in (1, 2, 3, 5, 7):
+        for seed in ((1, 2, 3, 5, 7) if not thorough else tuple(range(1, 16))):
             other = _run(seed, names, cpath, rpath, root)
             for n in names:
                 if other[n] != base[n]:
@@ -159,7 +159,7 @@ def w_d22(rec):
 
 
 def r_c10(rec):
-    msg = search()
+    msg = search(thorough=bool(rec and rec.get("tier") == "thorough"))
     if msg:
         return True, msg
     return False, "rendered diagnostics are identical across 6 hash seeds and across two check orders on the corpus"
